@@ -28,9 +28,11 @@ package tcp
 //@   event
 //@   ensures_assumed iff(result1 == nil, result0 != nil)
 //@ func (*tcpAcceptor).Close
+//@   params t
 //@   requires t != nil && t.listener != nil
 //@   ensures closes_listener_once: evis(0, "cas t.closed") && evarg(0, 0) == 0 && evarg(0, 1) == 1 && implies(evres(0, 0), nemitted() == 2 && evis(1, "TCPListener).Close") && evarg(1, 0) == t.listener) && implies(!evres(0, 0), nemitted() == 1 && result == nil)
 //@ func (*tcpAcceptor).Accept
+//@   params t
 //@   requires t != nil && t.listener != nil
 //@   modifies nothing
 //@   loop 0 emits
